@@ -568,6 +568,10 @@ FIXED = [
     ("H 0\nT 0\nH 0\nM 0\nH 1\nR_Z(0.3) 1\nH 1\nM 1\nM 0 1", False),
     ("R 0 1 2\nX_ERROR(0.125) 0 1 2\nCX 0 3\nCX 1 3\nMR 3\nCX 1 3\nCX 2 3\nMR 3\nM 0 1 2\nDETECTOR rec[-5]\nDETECTOR rec[-4]\nDETECTOR rec[-3] rec[-2]\nOBSERVABLE_INCLUDE(0) rec[-1]", True),
     ("H 0\nCX 0 1\nDEPOLARIZE2(0.125) 0 1\nT 1\nU3(0.3, 0.41, -0.15) 0\nMX 0\nMY 1\nM 0 1", False),
+    # noisy T-gate sandwiches: for the mixed error assignments the normalisation graph evaluates to a complex number of modulus 2
+    # (the chain must start from its modulus)
+    ("X_ERROR(0.125) 0\nT 0\nT 0\nT 0\nX_ERROR(0.125) 0\nM 0\nT 0\nM 0", False),
+    ("T 0\nSQRT_X 0\nY_ERROR(0.125) 1\nT 1\nCZ 0 1\nCZ 1 0\nCNOT 0 1\nH 1\nSQRT_X 1\nX_ERROR(0.125) 1\nT 0\nM 0 1", False),
 ]
 
 
